@@ -650,6 +650,9 @@ KILLS = [
     "interpreter.py restore_: RESTORE n positions one byte into line n -> read.value.string, "
     "syntax-error.line, restore.missing-line",
     "interpreter.py restore_: missing line silently ignored -> restore.missing-line",
+    "interpreter.py restore_: line_numbers.get(n) with a truthiness test (wave-5 seed; RESTORE to "
+    "the first program line, offset 0) -> restore.missing-line, read.value.*, out-of-data.*, "
+    "read.unexpected-error, syntax-error.line (regressions RESTORE 2 / RESTORE 1 and the random unit)",
     "codestream.py skip_to_token: blanks skipped only at the start of a line (wave-4 seed; needs "
     "': DATA' with a blank after the colon) -> read.value.*, out-of-data.*, read.unexpected-error, "
     "restore.missing-line (regression 10 X=X+1: DATA 1,2 / 20 X=X+1: DATA \"a\"  :  DATA 3 and "
